@@ -89,3 +89,69 @@ func VerifC20_Proximity() {
 	}
 	zzverif.Reach("C20-proximity")
 }
+
+// verifC20word packs up to 8 bytes of v[from:] xor a[from:] big-endian into a uint64.
+func verifC20word(v, a []byte, from, n int) uint64 {
+	var r uint64
+	for i := 0; i < 8; i++ {
+		r <<= 8
+		if from+i < n {
+			r |= uint64(v[from+i] ^ a[from+i])
+		}
+	}
+	return r
+}
+
+//verif:merge DistanceCmp
+
+// VerifC20_Distance: DistanceCmp orders x and y by the big-endian integer value
+// of their XOR distance to a; Closer agrees; DistanceRaw is the byte-wise XOR;
+// length mismatches are errors.
+func VerifC20_Distance() {
+	maxLen := zzverif.Param("maxlen", 8, 16)
+	zzverif.Unwind(400)
+	a := zzverif.Bytes("a", maxLen)
+	x := zzverif.Bytes("x", maxLen)
+	y := zzverif.Bytes("y", maxLen)
+	n := len(a)
+	if len(x) != n || len(y) != n {
+		_, err := DistanceCmp(a, x, y)
+		zzverif.Assert(err != nil, "distancecmp-length-mismatch-error")
+		if len(x) != n {
+			_, err2 := DistanceRaw(a, x)
+			zzverif.Assert(err2 != nil, "distanceraw-length-mismatch-error")
+		}
+		zzverif.Reach("C20-distance-mismatch")
+		return
+	}
+	got, err := DistanceCmp(a, x, y)
+	zzverif.Assert(err == nil, "distancecmp-no-error")
+	// specification: compare the XOR distances as big-endian integers, word by word
+	hx, hy := verifC20word(x, a, 0, n), verifC20word(y, a, 0, n)
+	lx, ly := verifC20word(x, a, 8, n), verifC20word(y, a, 8, n)
+	want := 0
+	switch {
+	case hx < hy:
+		want = 1
+	case hx > hy:
+		want = -1
+	case lx < ly:
+		want = 1
+	case lx > ly:
+		want = -1
+	}
+	zzverif.Assert(got == want, "distancecmp=sign(xor-distance compare)")
+	// antisymmetry
+	rev, _ := DistanceCmp(a, y, x)
+	zzverif.Assert(rev == -got, "distancecmp-antisymmetric")
+	// Closer: x.Closer(a, y) <=> x strictly closer to a than y
+	cl, cerr := NewAddress(x).Closer(NewAddress(a), NewAddress(y))
+	zzverif.Assert(cerr == nil && cl == (want == 1), "closer-consistent")
+	// DistanceRaw is the byte-wise XOR
+	raw, rerr := DistanceRaw(a, x)
+	zzverif.Assert(rerr == nil && len(raw) == n, "distanceraw-length")
+	k := zzverif.Int("k")
+	zzverif.Assume(k >= 0 && k < n)
+	zzverif.Assert(raw[k] == a[k]^x[k], "distanceraw-xor")
+	zzverif.Reach("C20-distance")
+}
